@@ -1,190 +1,90 @@
 (* C19 -- Invalid formulas are isolated and valid ones mean what they say.
    Line-level kernel: how a formula text is placed into the shared generated module
-   (codebuilder._indent/_dedent/_create_syntax_error_code, the `$name` patches of _do_make_formula_body).
-   Models: Model/Codegen.v, Model/Dollar.v (hand-written, compared with the running code on every run by
-   harness/props/c19.py).  Statements only; proofs are in Proofs/Codegen_proofs.v and Proofs/Dollar_proofs.v.
+   (codebuilder._do_make_formula_body/_indent/_dedent/_create_syntax_error_code/make_formula_body,
+   gencode._make_formula_field).  Models: Model/Codegen.v, Model/Dollar.v (hand-written, compared with the running
+   code on every run by harness/props/c19.py).  Statements only; proofs are in Proofs/Codegen_proofs.v and
+   Proofs/Dollar_proofs.v.
 
-   On the current source the full statements are FALSE: a bare "\r" ends a physical line for CPython's tokenizer
-   but not for the `^` of the regular expressions (C19_refuted_cr).  They are proved under "no bare \r"
-   (theorems named _partial), and in full for the repaired variants (..._fixed: line endings normalised first, as
-   in notes/proposed_fixes/C19-carriage-return.diff). *)
+   Since /repo commits 2055653 (line ends normalised before the line-based code generation) and 66ce871 (un-indent
+   of multi-line strings) the statements hold for ALL formula texts; the former witnesses ("foo(\rbar", ...) are kept
+   as regression examples.  Still open on the source: a form feed in leading whitespace (C19_refuted_ff). *)
 From Coq Require Import ZArith List Bool Permutation.
 Import ListNotations.
 Require Import Grist.Model.Codegen Grist.Model.Dollar Grist.Proofs.Codegen_proofs Grist.Proofs.Dollar_proofs.
 Open Scope Z_scope.
 
-(* ---- the full statements about the code as it is (kept as definitions: they are refuted below) ---- *)
-Definition comment_out_all_lines_stmt : Prop := forall t, all_commented (comment_re t).
-Definition indent_all_lines_stmt : Prop :=
-  forall ind t, ~ In NL ind -> ~ In CR ind -> all_indented ind (indent_re ind t).
-Definition dedent_sound_stmt : Prop := forall t, dedent_ok t (dedent_re t).
-Definition stub_is_wellformed_stmt : Prop :=
-  forall ind printable name msg line col1 ltext t,
-    ~ In NL ind -> ~ In CR ind -> Forall (fun c => c <> NL /\ c <> CR) name ->
-    stub_wellformed ind (indent_re ind (stub_code printable name msg line col1 ltext t))
-                    printable name msg line col1 ltext.
-Definition indent_columns_stmt : Prop :=
-  forall n t, all_indented_cols (repeat SP n) (indent_re (repeat SP n) t).
-
-(* witnesses: "foo(\rbar", "x = 1\rreturn x", "  a\r  b" *)
-Definition w_foo_cr_bar : text := [102; 111; 111; 40; 13; 98; 97; 114].
-Definition w_assign_cr_return : text := [120; 32; 61; 32; 49; 13; 114; 101; 116; 117; 114; 110; 32; 120].
-Definition w_indented_cr : text := [32; 32; 97; 13; 32; 32; 98].
 Definition four_spaces : text := repeat SP 4.
 Definition s_SyntaxError : text := [83; 121; 110; 116; 97; 120; 69; 114; 114; 111; 114].
-
-(* The generated text for "foo(\rbar" is "# foo(\rbar": its second physical line is `bar`, live code. *)
-Theorem C19_refuted_cr :
-  ~ comment_out_all_lines_stmt /\ ~ indent_all_lines_stmt /\ ~ dedent_sound_stmt /\ ~ stub_is_wellformed_stmt.
-Proof.
-  split; [|split; [|split]].
-  - intros H. specialize (H w_foo_cr_bar). unfold all_commented in H.
-    assert (E : phys_lines (comment_re w_foo_cr_bar) = [[35; 32; 102; 111; 111; 40]; [98; 97; 114]])
-      by (vm_compute; reflexivity).
-    rewrite E in H. apply Forall_inv_tail, Forall_inv in H. vm_compute in H. discriminate H.
-  - intros H. specialize (H four_spaces w_assign_cr_return). unfold all_indented in H.
-    assert (E : phys_lines (indent_re four_spaces w_assign_cr_return)
-                = [[32; 32; 32; 32; 120; 32; 61; 32; 49]; [114; 101; 116; 117; 114; 110; 32; 120]])
-      by (vm_compute; reflexivity).
-    rewrite E in H.
-    assert (H' := H ltac:(vm_compute; intuition discriminate) ltac:(vm_compute; intuition discriminate)).
-    apply Forall_inv_tail, Forall_inv in H'. specialize (H' eq_refl). vm_compute in H'. discriminate H'.
-  - intros H. specialize (H w_indented_cr). destruct H as [sh [_ H]].
-    assert (E1 : phys_lines w_indented_cr = [[32; 32; 97]; [32; 32; 98]]) by (vm_compute; reflexivity).
-    assert (E2 : phys_lines (dedent_re w_indented_cr) = [[97]; [32; 32; 98]]) by (vm_compute; reflexivity).
-    rewrite E1, E2 in H. inversion H as [|? ? ? ? R1 H2]; subst. inversion H2 as [|? ? ? ? R2 _]; subst.
-    destruct R1 as [R1|[R1 _]]; [|vm_compute in R1; discriminate R1].
-    destruct R2 as [R2|[R2 _]]; [|vm_compute in R2; discriminate R2].
-    change [32; 32; 97] with ([32; 32] ++ [97]) in R1. apply app_inj_tail in R1. destruct R1 as [<- _].
-    discriminate R2.
-  - intros H.
-    specialize (H four_spaces (fun _ => true) s_SyntaxError [] 1 1 [] w_foo_cr_bar
-                  ltac:(vm_compute; intuition discriminate) ltac:(vm_compute; intuition discriminate)
-                  ltac:(repeat constructor; discriminate)).
-    destruct H as [comments [E [Hc _]]].
-    set (rs := four_spaces ++ raise_stmt (fun _ => true) s_SyntaxError [] 1 1 []) in *.
-    assert (E0 : phys_lines (indent_re four_spaces
-                   (stub_code (fun _ => true) s_SyntaxError [] 1 1 [] w_foo_cr_bar))
-                 = [[32; 32; 32; 32; 35; 32; 102; 111; 111; 40]; [98; 97; 114]] ++ [rs])
-      by (vm_compute; reflexivity).
-    rewrite E0 in E. apply app_inj_tail in E. destruct E as [<- _].
-    apply Forall_inv_tail, Forall_inv in Hc. vm_compute in Hc. discriminate Hc.
-Qed.
-
-(* A form feed resets the tokenizer's column: "\f1" indented by four blanks still sits at column 0. *)
-Theorem C19_refuted_ff : ~ indent_columns_stmt.
-Proof.
-  intros H. specialize (H 4%nat [12; 49]). unfold all_indented_cols in H.
-  assert (E : phys_lines (indent_re (repeat SP 4) [12; 49]) = [[32; 32; 32; 32; 12; 49]]) by (vm_compute; reflexivity).
-  rewrite E in H. apply Forall_inv in H. specialize (H eq_refl). vm_compute in H. apply H. reflexivity.
-Qed.
 
 (* ---- physical lines: the definition agrees with the tokenizer's own normalisation ---- *)
 Theorem C19_phys_lines_universal : forall t, phys_lines (universal_newlines t) = phys_lines t.
 Proof. exact phys_lines_universal. Qed.
 
-(* ---- comment-out ---- *)
-Theorem C19_comment_out_all_lines_partial : forall t,
-  no_bare_cr (rstrip t) = true -> all_commented (comment_re t).
-Proof. exact comment_all_lines_nbc. Qed.
+(* the text the code works on after its first two steps holds no "\r" at all *)
+Theorem C19_formula_text_has_no_cr : forall f, ~ In CR (formula_text f).
+Proof. exact formula_text_crfree. Qed.
 
-Theorem C19_comment_out_all_lines_fixed : forall t, all_commented (comment_fixed t).
-Proof. exact comment_all_lines_fixed. Qed.
+(* ---- comment-out: every physical line of the commented part of a syntax-error stub starts with '#' ---- *)
+Theorem C19_comment_out_all_lines : forall f, all_commented (comment_re (formula_text f)).
+Proof. exact comment_out_all_lines. Qed.
 
-(* ---- indent ---- *)
-Theorem C19_indent_all_lines_partial : forall ind t,
-  ~ In NL ind -> ~ In CR ind -> no_bare_cr t = true -> all_indented ind (indent_re ind t).
-Proof. exact indent_all_lines_nbc. Qed.
+(* ---- indent: every non-blank physical line of an indented body carries the indent; for the formula text itself
+   and for any body without "\r" (patched formula texts and stubs are such bodies) ---- *)
+Theorem C19_indent_all_lines : forall ind f,
+  ~ In NL ind -> ~ In CR ind -> all_indented ind (indent_re ind (formula_text f)).
+Proof. exact indent_all_lines. Qed.
 
-Theorem C19_indent_all_lines_fixed : forall ind t,
-  ~ In NL ind -> ~ In CR ind -> all_indented ind (indent_fixed ind t).
-Proof. exact indent_all_lines_fixed. Qed.
+Theorem C19_indent_all_lines_body : forall ind body,
+  ~ In NL ind -> ~ In CR ind -> ~ In CR body -> all_indented ind (indent_re ind body).
+Proof. exact indent_all_lines_body. Qed.
 
-(* with the tokenizer's column rule; the form feed is not repaired by the proposed patch, so this one stays
-   partial for the repaired variant too *)
-Theorem C19_indent_columns_partial : forall n t,
-  ~ In FF t -> no_bare_cr t = true -> all_indented_cols (repeat SP n) (indent_re (repeat SP n) t).
+(* with the tokenizer's column rule a form feed still defeats the indent: "\f1" indented by four blanks sits at
+   column 0 (known finding C19-form-feed); proved for texts without form feed *)
+Definition indent_columns_stmt : Prop :=
+  forall n f, all_indented_cols (repeat SP n) (indent_re (repeat SP n) (formula_text f)).
+
+Theorem C19_refuted_ff : ~ indent_columns_stmt.
+Proof.
+  intros H. specialize (H 4%nat [12; 49]). unfold all_indented_cols in H.
+  assert (E : phys_lines (indent_re (repeat SP 4) (formula_text [12; 49])) = [[32; 32; 32; 32; 12; 49]])
+    by (vm_compute; reflexivity).
+  rewrite E in H. apply Forall_inv in H. specialize (H eq_refl). vm_compute in H. apply H. reflexivity.
+Qed.
+
+Theorem C19_indent_columns_partial : forall n f,
+  ~ In FF f -> all_indented_cols (repeat SP n) (indent_re (repeat SP n) (formula_text f)).
+Proof. exact indent_cols. Qed.
+
+Theorem C19_indent_columns_body_partial : forall n body,
+  ~ In FF body -> no_bare_cr body = true -> all_indented_cols (repeat SP n) (indent_re (repeat SP n) body).
 Proof. exact indent_cols_nbc. Qed.
 
-Theorem C19_indent_columns_fixed_partial : forall n t,
-  ~ In FF t -> all_indented_cols (repeat SP n) (indent_fixed (repeat SP n) t).
-Proof. exact indent_cols_fixed. Qed.
-
-(* ---- dedent ---- *)
-Theorem C19_dedent_sound_partial : forall t, no_bare_cr t = true -> dedent_ok t (dedent_re t).
-Proof. exact dedent_nbc. Qed.
-
-Theorem C19_dedent_sound_fixed : forall t, dedent_ok t (dedent_fixed t).
-Proof. exact dedent_fixed_ok. Qed.
+(* ---- dedent: one and the same run of blanks/tabs is removed from every physical line of the formula (lines of
+   blanks and tabs only may stay as they are) ---- *)
+Theorem C19_dedent_sound : forall f, dedent_ok f (formula_text f).
+Proof. exact dedent_sound. Qed.
 
 (* ---- the syntax-error stub as placed into a function body of the shared module: comment lines carrying the
    indent, then one line `raise Name('...', ('usercode', n, n, '...'))` without a line end inside, whose two
-   literals are complete string literals by the tokenizer's rule; for every printable-table ---- *)
-Theorem C19_stub_is_wellformed_partial : forall ind printable name msg line col1 ltext t,
+   literals are complete string literals by the tokenizer's rule; for every formula, message and printable-table ---- *)
+Theorem C19_stub_is_wellformed : forall ind printable name msg line col1 ltext f,
   ~ In NL ind -> ~ In CR ind -> Forall (fun c => c <> NL /\ c <> CR) name ->
-  no_bare_cr (rstrip t) = true ->
-  stub_wellformed ind (indent_re ind (stub_code printable name msg line col1 ltext t))
+  stub_wellformed ind (indent_re ind (stub_of_formula printable name msg line col1 ltext f))
                   printable name msg line col1 ltext.
-Proof. exact stub_wellformed_nbc. Qed.
+Proof. exact stub_is_wellformed. Qed.
 
-Theorem C19_stub_is_wellformed_fixed : forall ind printable name msg line col1 ltext t,
+Theorem C19_stub_body_no_bare_cr : forall ind printable name msg line col1 ltext f,
   ~ In NL ind -> ~ In CR ind -> Forall (fun c => c <> NL /\ c <> CR) name ->
-  stub_wellformed ind (indent_re ind (stub_fixed printable name msg line col1 ltext t))
-                  printable name msg line col1 ltext.
-Proof. exact stub_wellformed_fixed. Qed.
+  no_bare_cr (indent_re ind (stub_of_formula printable name msg line col1 ltext f)) = true.
+Proof. exact stub_body_no_bare_cr. Qed.
 
-(* repr() of any string is one complete short string literal without a line end, whatever the message is *)
 Theorem C19_repr_is_one_literal : forall printable s rest,
   scan_string (py_repr printable s ++ rest) = Some rest /\
   Forall (fun c => c <> NL /\ c <> CR) (py_repr printable s).
 Proof. intros. split; [apply scan_py_repr|apply py_repr_no_le]. Qed.
 
-(* ---- `$name` -> `rec.name` and `return`: applying the patches the code builds from the parser's positions
-   (name tokens written with `$`, in any order; start of the final expression statement) gives the per-token
-   meaning: `$x` is `rec.x` outside string/comment tokens, the last expression is returned ---- *)
-Theorem C19_dollar_translation : forall (ks : list tok) (name_pos : list Z) (last_expr : option Z),
-  forallb tok_wf ks = true ->
-  Permutation name_pos (name_offsets 0 ks) ->
-  mark_offsets 0 ks = match last_expr with Some p => [p] | None => [] end ->
-  translate (src_of ks) name_pos last_expr = spec_of ks.
-Proof. exact translate_meets_spec. Qed.
-
-(* ---- non-vacuity of the hypotheses ---- *)
-(* "if x:\r\n    y\r\n" + "\r\n" line ends: no bare "\r"; the partial theorems speak about it *)
-Definition ex_crlf : text := [32; 32; 105; 102; 32; 120; 58; 13; 10; 32; 32; 32; 32; 121; 13; 10; 13; 10; 32; 32; 122].
-Example C19_partial_nonvacuous :
-  no_bare_cr ex_crlf = true /\ no_bare_cr (rstrip ex_crlf) = true /\ ~ In FF ex_crlf /\
-  phys_lines (comment_re ex_crlf)
-    = [[35; 32; 32; 32; 105; 102; 32; 120; 58]; [35; 32; 32; 32; 32; 32; 121]; [35; 32]; [35; 32; 32; 32; 122]] /\
-  phys_lines (indent_re four_spaces ex_crlf)
-    = [[32; 32; 32; 32; 32; 32; 105; 102; 32; 120; 58]; [32; 32; 32; 32; 32; 32; 32; 32; 121]; [];
-       [32; 32; 32; 32; 32; 32; 122]] /\
-  (* the "\r" of the empty CRLF line stops the code's dedent (no shared indent found); the repaired one finds it *)
-  dedent_re ex_crlf = ex_crlf /\
-  phys_lines (dedent_fixed ex_crlf) = [[105; 102; 32; 120; 58]; [32; 32; 121]; []; [122]].
-Proof.
-  repeat split; try (vm_compute; reflexivity). vm_compute. intuition discriminate.
-Qed.
-
-Example C19_fixed_on_witnesses :
-  phys_lines (comment_fixed w_foo_cr_bar) = [[35; 32; 102; 111; 111; 40]; [35; 32; 98; 97; 114]] /\
-  phys_lines (indent_fixed four_spaces w_assign_cr_return)
-    = [[32; 32; 32; 32; 120; 32; 61; 32; 49]; [32; 32; 32; 32; 114; 101; 116; 117; 114; 110; 32; 120]] /\
-  phys_lines (dedent_fixed w_indented_cr) = [[97]; [98]].
-Proof. repeat split; vm_compute; reflexivity. Qed.
-
-(* `$a + '$b' # $c` then `$d` on the next line; the parser's answers given in reverse order *)
-Example C19_dollar_nonvacuous :
-  let ks := [TMark; TDollar [97]; TCode [32; 43; 32]; TOpaque [39; 36; 98; 39]; TCode [32];
-             TOpaque [35; 32; 36; 99]; TCode [10]; TDollar [100]] in
-  forallb tok_wf ks = true /\
-  translate (src_of ks) (rev (name_offsets 0 ks)) (Some 0) = spec_of ks /\
-  spec_of ks = s_return ++ s_rec ++ [97; 32; 43; 32; 39; 36; 98; 39; 32; 35; 32; 36; 99; 10] ++ s_rec ++ [100].
-Proof. exact translate_example. Qed.
-
 (* ---- placement into the shared module (gencode._make_formula_field): a blank line, the `def` line, then exactly
-   the physical lines of the body, then a blank line; so a body whose lines are all comment/raise/indented lines
-   stays inside its own function.  The stub bodies satisfy the hypothesis (second and third theorem). ---- *)
+   the physical lines of the body, then a blank line ---- *)
 Theorem C19_field_lines : forall indent name params body,
   Forall (fun c => c <> NL /\ c <> CR) indent -> Forall (fun c => c <> NL /\ c <> CR) name ->
   Forall (fun c => c <> NL /\ c <> CR) params -> no_bare_cr body = true ->
@@ -192,22 +92,60 @@ Theorem C19_field_lines : forall indent name params body,
   = [] :: (indent ++ s_def ++ name ++ [40] ++ params ++ [41; 58]) :: phys_lines body ++ [[]].
 Proof. exact field_lines. Qed.
 
-Theorem C19_stub_body_no_bare_cr_partial : forall ind printable name msg line col1 ltext t,
-  ~ In NL ind -> ~ In CR ind -> Forall (fun c => c <> NL /\ c <> CR) name -> no_bare_cr (rstrip t) = true ->
-  no_bare_cr (indent_re ind (stub_code printable name msg line col1 ltext t)) = true.
-Proof. exact stub_body_nbc. Qed.
+(* ---- un-indent of a multi-line string node: exactly the lines _indent changed are changed back, so the text of
+   the literal (first line from wherever the node starts, then whole lines) is what the user wrote ---- *)
+Theorem C19_unindent_inverse : forall ind first l ls,
+  ~ In NL ind -> ~ In NL first -> Forall (fun x => ~ In NL x) (l :: ls) ->
+  unindent_re ind (join_nl (first :: map (indent_line ind) (l :: ls))) = join_nl (first :: l :: ls).
+Proof. exact unindent_inverse. Qed.
 
-Theorem C19_stub_body_no_bare_cr_fixed : forall ind printable name msg line col1 ltext t,
-  ~ In NL ind -> ~ In CR ind -> Forall (fun c => c <> NL /\ c <> CR) name ->
-  no_bare_cr (indent_re ind (stub_fixed printable name msg line col1 ltext t)) = true.
-Proof. exact stub_body_nbc_fixed. Qed.
+(* ---- `$name` -> `rec.name` and `return`: applying the patches the code builds from the parser's positions
+   gives the per-token meaning ---- *)
+Theorem C19_dollar_translation : forall (ks : list tok) (name_pos : list Z) (last_expr : option Z),
+  forallb tok_wf ks = true ->
+  Permutation name_pos (name_offsets 0 ks) ->
+  mark_offsets 0 ks = match last_expr with Some p => [p] | None => [] end ->
+  translate (src_of ks) name_pos last_expr = spec_of ks.
+Proof. exact translate_meets_spec. Qed.
 
-(* def X(rec, table): with the stub of "foo(\rbar" after the repair *)
+(* ---- regression examples: the inputs that refuted these statements before the two repairs ---- *)
+Definition w_foo_cr_bar : text := [102; 111; 111; 40; 13; 98; 97; 114].                       (* "foo(\rbar" *)
+Definition w_assign_cr_return : text := [120; 32; 61; 32; 49; 13; 114; 101; 116; 117; 114; 110; 32; 120].
+Definition w_indented_cr : text := [32; 32; 97; 13; 32; 32; 98].                              (* "  a\r  b" *)
+Definition ex_crlf : text := [32; 32; 105; 102; 32; 120; 58; 13; 10; 32; 32; 32; 32; 121; 13; 10; 13; 10; 32; 32; 122].
+
+Example C19_cr_witnesses_regression :
+  phys_lines (comment_re (formula_text w_foo_cr_bar)) = [[35; 32; 102; 111; 111; 40]; [35; 32; 98; 97; 114]] /\
+  phys_lines (indent_re four_spaces (formula_text w_assign_cr_return))
+    = [[32; 32; 32; 32; 120; 32; 61; 32; 49]; [32; 32; 32; 32; 114; 101; 116; 117; 114; 110; 32; 120]] /\
+  phys_lines (formula_text w_indented_cr) = [[97]; [98]] /\
+  (* "  if x:\r\n    y\r\n\r\n  z": the shared indentation is found across the empty CRLF line *)
+  phys_lines (formula_text ex_crlf) = [[105; 102; 32; 120; 58]; [32; 32; 121]; []; [122]] /\
+  (* what the helpers alone do with a bare "\r" (why the normalisation has to come first) *)
+  phys_lines (comment_re w_foo_cr_bar) = [[35; 32; 102; 111; 111; 40]; [98; 97; 114]].
+Proof. repeat split; vm_compute; reflexivity. Qed.
+
+(* the string  a / four blanks / b  keeps its blank line with the new un-indent; the old one lost it *)
+Example C19_mlstring_regression :
+  let node := [34; 34; 34; 97; 10; 32; 32; 32; 32; 10; 98; 34; 34; 34] in
+  (* (the first line is not part of what the un-indent touches: it keeps the indent of the statement) *)
+  unindent_re four_spaces (indent_re four_spaces node) = four_spaces ++ node /\
+  unindent_old four_spaces (indent_re four_spaces node) = four_spaces ++ [34; 34; 34; 97; 10; 10; 98; 34; 34; 34].
+Proof. split; vm_compute; reflexivity. Qed.
+
 Example C19_field_nonvacuous :
-  let body := indent_re four_spaces (stub_fixed (fun _ => true) s_SyntaxError [] 1 1 [] w_foo_cr_bar) in
+  let body := indent_re four_spaces (stub_of_formula (fun _ => true) s_SyntaxError [] 1 1 [] w_foo_cr_bar) in
   no_bare_cr body = true /\
   phys_lines (formula_field [32; 32] [88] [114; 101; 99] body)
   = [ []; [32; 32; 100; 101; 102; 32; 88; 40; 114; 101; 99; 41; 58];
       [32; 32; 32; 32; 35; 32; 102; 111; 111; 40]; [32; 32; 32; 32; 35; 32; 98; 97; 114];
       four_spaces ++ raise_stmt (fun _ => true) s_SyntaxError [] 1 1 []; [] ].
 Proof. split; vm_compute; reflexivity. Qed.
+
+Example C19_dollar_nonvacuous :
+  let ks := [TMark; TDollar [97]; TCode [32; 43; 32]; TOpaque [39; 36; 98; 39]; TCode [32];
+             TOpaque [35; 32; 36; 99]; TCode [10]; TDollar [100]] in
+  forallb tok_wf ks = true /\
+  translate (src_of ks) (rev (name_offsets 0 ks)) (Some 0) = spec_of ks /\
+  spec_of ks = s_return ++ s_rec ++ [97; 32; 43; 32; 39; 36; 98; 39; 32; 35; 32; 36; 99; 10] ++ s_rec ++ [100].
+Proof. exact translate_example. Qed.
